@@ -195,7 +195,7 @@ func c15Create(c *ctx) {
 	sinks := 0
 	for _, g := range unitFuncs(fn) {
 		for _, cs := range core.Calls(g) {
-			if core.CallIs(cs, "~/crypto/vss.samplePolynomial", "~/crypto/vss.evaluatePolynomial", "~/crypto.ScalarBaseMult") {
+			if core.CallIs(cs, "~/crypto/vss.samplePolynomial", "~/crypto/vss.evaluatePolynomial", "~/crypto.ScalarBaseMult") || (g == fn && core.CallIs(cs, "~/common.GetRandomPositiveInt")) {
 				sinks++
 				// judged where the step happens in Create: the call itself, or the call of the helper holding it
 				var at ssa.Instruction = cs
@@ -241,17 +241,50 @@ func c15Create(c *ctx) {
 	// shares evaluated at the checked ids with the same threshold and polynomial
 	evs := core.CallsTo(fn, "~/crypto/vss.evaluatePolynomial")
 	sps := core.CallsTo(fn, "~/crypto/vss.samplePolynomial")
-	shOK := len(evs) == 1 && len(sps) == 1
+	// the polynomial: the result of samplePolynomial(ec, threshold, secret, rand), or — the helper written
+	// out in Create — a list made with threshold+1 slots whose slot 0 is the secret
+	var poly ssa.Value
+	inlinedPoly := false
+	if len(sps) == 1 {
+		poly = sps[0].(*ssa.Call)
+	} else if len(sps) == 0 {
+		for _, b := range fn.Blocks {
+			for _, in := range b.Instrs {
+				mk, isMk := in.(*ssa.MakeSlice)
+				if !isMk {
+					continue
+				}
+				lt := core.TermOf(mk.Len)
+				if !(lt.Op == "bin+" && ((paramIs(fn, 1)(lt.Args[0]) && constIs(lt.Args[1], 1)) || (paramIs(fn, 1)(lt.Args[1]) && constIs(lt.Args[0], 1)))) {
+					continue
+				}
+				if refs := mk.Referrers(); refs != nil {
+					for _, r := range *refs {
+						if ia, isIA := r.(*ssa.IndexAddr); isIA && ia.Referrers() != nil {
+							if k, isK := core.ConstInt(ia.Index); isK && k == 0 {
+								for _, u := range *ia.Referrers() {
+									if st, isSt := u.(*ssa.Store); isSt && st.Addr == ssa.Value(ia) && core.TermOf(st.Val).Key() == paramTerm(fn, 2).Key() {
+										poly, inlinedPoly = mk, true
+									}
+								}
+							}
+						}
+					}
+				}
+			}
+		}
+	}
+	shOK := len(evs) == 1 && poly != nil
 	why := ""
 	if shOK {
-		ev, sp := evs[0].(*ssa.Call), sps[0].(*ssa.Call)
+		ev := evs[0].(*ssa.Call)
 		// samplePolynomial(ec, threshold, secret, rand)
-		if core.TermOf(sp.Call.Args[1]).Key() != paramTerm(fn, 1).Key() || core.TermOf(sp.Call.Args[2]).Key() != paramTerm(fn, 2).Key() || core.TermOf(sp.Call.Args[3]).Key() != paramTerm(fn, 4).Key() {
+		if sp, isCall := poly.(*ssa.Call); isCall && (core.TermOf(sp.Call.Args[1]).Key() != paramTerm(fn, 1).Key() || core.TermOf(sp.Call.Args[2]).Key() != paramTerm(fn, 2).Key() || core.TermOf(sp.Call.Args[3]).Key() != paramTerm(fn, 4).Key()) {
 			shOK = false
 			why += "samplePolynomial is not called with (threshold, secret, rand); "
 		}
 		// evaluatePolynomial(ec, threshold, poly, ids[i])
-		if core.TermOf(ev.Call.Args[1]).Key() != paramTerm(fn, 1).Key() || core.Strip(ev.Call.Args[2]) != ssa.Value(sp) {
+		if core.TermOf(ev.Call.Args[1]).Key() != paramTerm(fn, 1).Key() || core.Strip(ev.Call.Args[2]) != poly {
 			shOK = false
 			why += "evaluatePolynomial does not use the same threshold and the sampled polynomial; "
 		}
@@ -316,19 +349,19 @@ func c15Create(c *ctx) {
 			sbm = append(sbm, core.CallsTo(g, "~/crypto.ScalarBaseMult")...)
 		}
 	}
-	vOK := len(sbm) == 1 && len(sps) == 1
+	vOK := len(sbm) == 1 && poly != nil
 	if vOK {
 		// (the commitment loop may sit in a private helper commitToPolynomial(ec, poly))
 		call := sbm[0].(*ssa.Call)
 		a := core.FrameParamTerm(fn, call.Call.Args[1])
-		if !(a.Op == "[]" && a.Args[0].V == ssa.Value(sps[0].(*ssa.Call))) {
+		if !(a.Op == "[]" && a.Args[0].V == poly) {
 			vOK = false
 		}
 		cov := false
 		for _, l := range core.Loops(call.Parent()) {
 			if l.In[call.Block()] && l.Lo == 0 && !l.HiIncl && a.Op == "[]" && core.FrameParamTerm(fn, l.Idx).Key() == a.Args[1].Key() {
 				ht := core.FrameParamTerm(fn, l.Hi)
-				if ht.Op == "call:len" && ht.Args[0].V == ssa.Value(sps[0].(*ssa.Call)) {
+				if ht.Op == "call:len" && ht.Args[0].V == poly {
 					cov = true
 				}
 			}
@@ -337,13 +370,21 @@ func c15Create(c *ctx) {
 	}
 	c.r.Check(vOK, rule, fkey(rule, fn, "commitments=poly*G"), c.fpos(fn), "v[k] = poly[k]*G for every coefficient", "the commitments are not poly[k]*G for every coefficient of the sampled polynomial")
 	// samplePolynomial: v[0] = secret, length threshold+1, other coefficients sampled below q from rand
-	if sp := c.mustFunc(rule, "crypto/vss", "samplePolynomial"); sp != nil {
+	// (judged on Create itself when the helper has been written out there)
+	sp := c.p.Func("crypto/vss", "samplePolynomial")
+	secretIdx, randIdx := 2, 3
+	if (sp == nil || sp.Blocks == nil) && inlinedPoly {
+		sp, secretIdx, randIdx = fn, 2, 4
+	} else if sp == nil || sp.Blocks == nil {
+		sp = c.mustFunc(rule, "crypto/vss", "samplePolynomial")
+	}
+	if sp != nil {
 		ok := false
 		for _, b := range sp.Blocks {
 			for _, in := range b.Instrs {
 				if st, isSt := in.(*ssa.Store); isSt {
 					if ia, isIA := st.Addr.(*ssa.IndexAddr); isIA {
-						if k, isK := core.ConstInt(ia.Index); isK && k == 0 && core.TermOf(st.Val).Key() == paramTerm(sp, 2).Key() {
+						if k, isK := core.ConstInt(ia.Index); isK && k == 0 && core.TermOf(st.Val).Key() == paramTerm(sp, secretIdx).Key() {
 							ok = true
 						}
 					}
@@ -354,7 +395,7 @@ func c15Create(c *ctx) {
 		okR := len(rnd) == 1
 		if okR {
 			rc := rnd[0].(*ssa.Call)
-			okR = core.TermOf(rc.Call.Args[0]).Key() == paramTerm(sp, 3).Key() && core.IsCurveOrder(core.TermOf(rc.Call.Args[1]))
+			okR = core.TermOf(rc.Call.Args[0]).Key() == paramTerm(sp, randIdx).Key() && core.IsCurveOrder(core.TermOf(rc.Call.Args[1]))
 		}
 		c.r.Check(ok && okR, rule, fkey(rule, sp, "poly[0]=secret"), c.fpos(sp), "constant coefficient is the secret; others sampled below q from rand", "the polynomial's constant term is not the secret, or coefficients are not sampled below the curve order from rand")
 	}
